@@ -81,6 +81,12 @@ def generate(rng, tier):
                           "include0": rng.choice([None, None, ["HitList", "HoldList"], ["NoteList"]])})
         for _ in range(max(2, n // 4)):
             specs = [M.gen_map_spec(rng, game, max_rows=3) for _ in range(rng.choice([2, 3]))]
+            if rng.random() < 0.4:
+                # a chart whose lists are ALL empty somewhere in the set (it has no row in the set's stacked frame)
+                e = M.gen_map_spec(rng, game, max_rows=1)
+                for ls in e["lists"].values():
+                    ls["rows"] = []
+                specs.insert(rng.randrange(len(specs)), e)
             ops = [{"op": "assign", "key": rng.choice(["offset", "column", "length", "bpm", "metronome"]),
                     "aop": rng.choice(["add", "sub", "mul", "div"]), "v": rng.choice([2, 4, 0.5, 8])}
                    for _ in range(rng.choice([1, 2, 3]))]
@@ -251,6 +257,8 @@ def execute(case):
             out["steps"].append({"t": "keyerror", "op": o, "exc": str(e)[:60]})
             continue
         for k, m in enumerate(maps):
+            if all(len(v) == 0 for v in m.objs.values()):
+                continue          # a chart without any row: nothing to edit (its neighbours in the set are judged)
             out["steps"].append({"t": "step", "members": list(m.objs.keys()), "before": befores[k], "rows_b": rows_b[k],
                                  "op": {"op": "assign", "key": FR.col_id(key), "aop": o["aop"], "v": F.frac_json(Fr(o["v"])), "vec": None},
                                  "after": _snap(m, it), "rows_a": _stack_rows(st.stackers[k], it), "types_same": True})
